@@ -230,6 +230,8 @@ structure DrvEv where
   s : ES := ES.init
   /-- event references in the order a consumer first saw them: the canonical numbering of the answers -/
   seen : List Nat := []
+  /-- indices of the subscribers opened with the driver's include filter ("the value's token is even") -/
+  incl : List Nat := []
 
 def parseKind? (s : String) : Option Kind :=
   if s = "ADD" then some .add else if s = "UPDATE" then some .update
